@@ -19,6 +19,7 @@ RULE = (
     "sibling-of-ancestor name, path + positionals, path + options, '--' followed by command names, empty line, options "
     "only; each line also with aliases substituted. Compared: selected command (full name path), its Args against "
     "Command.parse, or the exception class; undefined-command lines are also sent through run() with recording handlers. "
+    "Also: a line that is exactly a path plus one value per required argument must be accepted by its command (independent of the parser's own verdict); the same argv list wrapped twice resolves alike and is left unchanged; empty tokens, short clusters in front of the path, replaced aliases, disabled / anonymous sub-command names; a configured command the application does not know is a violation. "
     "non-trivial = tree of depth >= 2 or with a default/anonymous/hidden node, and a line with >= 1 token; distinct by "
     "(tree shape, line shape)."
 )
